@@ -480,7 +480,7 @@ impl<'r, 'gc> Cb<'r, 'gc> {
             born_at: self.ex.op_index,
             poisoned: false,
         };
-        if let Some(old) = self.ex.w.by_addr.insert(addr, id) {
+        if let (Some(old), true) = (self.ex.w.by_addr.insert(addr, id), track::enabled()) {
             self.ex.viol("C01", "M-live", format!("fresh object {} allocated at the address of still-allocated object {}", id, old));
         }
         self.ex.w.objs.insert(id, o);
@@ -491,6 +491,9 @@ impl<'r, 'gc> Cb<'r, 'gc> {
             self.ex.w.next_id = id + 1;
         }
         self.ptrs.insert(id, p);
+        if self.phase == Ph::Sweeping {
+            self.ex.mon[a as usize].sweep_born.insert(id);
+        }
         self.allocs += 1;
         self.ex.stats.inc(&format!("alloc_{}_{:?}", kind.name(), self.phase));
     }
@@ -541,6 +544,16 @@ impl<'r, 'gc> Cb<'r, 'gc> {
                         }
                     }
                     self.do_alloc(first_id + i, Kind::RCell, 0, &[head]);
+                    // weak pointer to the grand-predecessor: when the chain is marked, that object
+                    // is reached through the weak pointer first and through a strong one later
+                    if let Some(h) = head {
+                        let gp = self.ex.w.strong_slot(a, Ref::Obj(h), 0).flatten();
+                        if let (Some(gp), true) = (gp, (first_id + i) % 2 == 0) {
+                            if self.ptrs.contains_key(&gp) || self.resolve(h).and_then(|p| p.get_strong(0)).map(|p| { self.ptrs.insert(gp, p); }).is_some() {
+                                let _ = self.store_weak(Ref::Obj(first_id + i), 0, Some(gp), 0);
+                            }
+                        }
+                    }
                     if !self.store_strong(Ref::Root, *slot, Some(first_id + i), 0, false) {
                         break;
                     }
